@@ -361,7 +361,7 @@ def run_job(job):
 def make_jobs(prop, plan, tier, nproc=16, rnd_every=3, max_group_nodes=400_000):
     """group plan items by scene (one field call per group), estimate cost, balance over workers.
     Every instance is measured under kappa = identity; every `rnd_every`-th scene group additionally under a random kappa."""
-    cost_of = {"CylinderSegment": 140.0, "TriangularMesh": 20.0, "Tetrahedron": 11.0, "Cuboid": 8.0, "Polyline": 5.0, "Cylinder": 3.5}
+    cost_of = {"CylinderSegment": 220.0, "TriangularMesh": 20.0, "Tetrahedron": 11.0, "Cuboid": 8.0, "Polyline": 5.0, "Cylinder": 3.5}
     groups = {}
     for tid, p in enumerate(plan):
         groups.setdefault(cjson(p["inst"]["scene"]), []).append((tid, p["inst"], p["der"]))
@@ -371,9 +371,10 @@ def make_jobs(prop, plan, tier, nproc=16, rnd_every=3, max_group_nodes=400_000):
         c = sum(cost_of.get(s["cls"], 1.5) for s in scene)
         # split big groups so that one field call stays below max_group_nodes points
         chunk, acc, n = [], [], 0
+        cap = max_group_nodes / max(1.0, c / 8.0)  # expensive classes: smaller field calls, better balance
         for it in items:
             est = _est_nodes(it[1], it[2])
-            if acc and n + est > max_group_nodes:
+            if acc and n + est > cap:
                 chunk.append(acc)
                 acc, n = [], 0
             acc.append(it)
@@ -387,12 +388,10 @@ def make_jobs(prop, plan, tier, nproc=16, rnd_every=3, max_group_nodes=400_000):
                 off = 1_000_000
                 units.append((est, ("rnd1", [(t + off, i, d) for t, i, d in ch])))
     units.sort(key=lambda u: -u[0])
-    bins = [[0.0, []] for _ in range(nproc)]
-    for est, u in units:
-        b = min(bins, key=lambda x: x[0])
-        b[0] += est
-        b[1].append(u)
-    return [(prop, f"{prop}:{tier}", b[1]) for b in bins if b[1]]
+    if nproc == 1:
+        return [(prop, f"{prop}:{tier}", [u for _, u in units])]
+    # one task per unit, most expensive first: the pool schedules them dynamically (chunksize 1)
+    return [(prop, f"{prop}:{tier}", [u]) for _, u in units]
 
 
 def _est_nodes(inst, der):
